@@ -12,14 +12,13 @@ import (
 
 // Engine represents the Twig template engine
 type Engine struct {
-	templates       map[string]*Template
-	mu              sync.RWMutex
-	autoReload      bool
-	strictVars      bool
-	loaders         []Loader
-	environment     *Environment
-	debug           bool
-	currentTemplate string // Tracks the name of the template currently being rendered
+	templates   map[string]*Template
+	mu          sync.RWMutex
+	autoReload  bool
+	strictVars  bool
+	loaders     []Loader
+	environment *Environment
+	debug       bool
 
 	// Test helper - override Parse function
 	Parse func(source string) (*Template, error)
@@ -133,14 +132,6 @@ func (e *Engine) SetDevelopmentMode(enabled bool) {
 func (e *Engine) Render(name string, context map[string]interface{}) (string, error) {
 	LogInfo("Rendering template: %s", name)
 
-	// Store current template name and previous template name
-	prevTemplate := e.currentTemplate
-	e.currentTemplate = name
-	defer func() {
-		// Restore previous template name when we're done
-		e.currentTemplate = prevTemplate
-	}()
-
 	template, err := e.Load(name)
 	if err != nil {
 		LogError(err, fmt.Sprintf("Failed to load template: %s", name))
@@ -179,14 +170,6 @@ func (e *Engine) Render(name string, context map[string]interface{}) (string, er
 // RenderTo renders a template to a writer
 func (e *Engine) RenderTo(w io.Writer, name string, context map[string]interface{}) error {
 	LogInfo("Rendering template to writer: %s", name)
-
-	// Store current template name and previous template name
-	prevTemplate := e.currentTemplate
-	e.currentTemplate = name
-	defer func() {
-		// Restore previous template name when we're done
-		e.currentTemplate = prevTemplate
-	}()
 
 	template, err := e.Load(name)
 	if err != nil {
